@@ -1,5 +1,10 @@
 """C20 — learning dynamics keep a valid state along every history: correspondence + spec run.
 
+Regression keys of repaired defects (ordinary oracle checks now): brd_time_series_overwrites_init (time_series must
+leave the caller's init_action_dist untouched; the state after the last period is therefore no longer observable),
+logit_shared_player_cdfs (two LogitDynamics built on one game behave independently: history_family), and
+fp_narrow_int_t_init (narrow NumPy integers for t_init / num_reps give the same bits as Python ints).
+
 Every random choice of the real code is either injected or recorded through a RandomState subclass
 (`Rec`) and handed to the model as an explicit input:
   * vector `randint(N, size=T)`  -> sequence of revising players (scripted or recorded)
@@ -398,7 +403,9 @@ def brd_case(ctx, cases, P):
             tbkw = {}
             ctx.count("forms:tie_breaking-by-attribute")
         snapA = snap(A_f)
-        nofinal = init_none or not isinstance(arr, np.ndarray)
+        # time_series works on a copy of init_action_dist (fix 0815c49): the state after the last period is not
+        # observable and the caller's array must stay as it was (regression key brd_time_series_overwrites_init)
+        nofinal = True
         init_acts = None
         P["_out"] = None
         try:
@@ -443,10 +450,10 @@ def brd_case(ctx, cases, P):
                   "rec_seed": P["seed"], "init_none": init_none, "malformed": malformed,
                   "player_ind_seq": ps_used, "uniforms": us_used, "randint_scalars": rec.log_ri,
                   "samples": rec.log_samples, "out": rows, "final": final, "init_actions": init_acts}
-        if final is not None and final != d0:
-            finding(ctx, "brd_time_series_overwrites_init",
-                    "%s.time_series overwrote the caller's init_action_dist ndarray (%s -> %s); undocumented in-place "
-                    "use of the input" % (kind, d0, final), replay)
+        if err is None and not init_none and [int(v) for v in arr] != list(P["d0"]):
+            ctx.spec_fail("brd_time_series_overwrites_init",
+                          "%s.time_series overwrote the caller's init_action_dist (%s -> %s)"
+                          % (kind, P["d0"], [int(v) for v in arr]), replay)
         if err is None:
             if snap(A_f) != snapA:
                 ctx.spec_fail("brd_input_modified", "the payoff matrix argument was modified", replay)
@@ -460,6 +467,8 @@ def brd_case(ctx, cases, P):
         if nofinal:
             def cmp_nofinal(mo, im):
                 parts = mo.split("|")
+                if mo == im:          # (e.g. both ERR:IndexError)
+                    return None
                 return None if len(parts) == 3 and parts[0] + "|" + parts[2] == im else "trajectory differs"
             cases.append(Case(line, impl, nontrivial=nontriv, cmp=cmp_nofinal,
                               tag=kind + (":init-none" if init_none else ":init-list")))
@@ -473,7 +482,7 @@ def brd_case(ctx, cases, P):
                 ctx.spec_fail("brd_indexerror", "%s.time_series raised IndexError on a valid history" % kind, replay)
             continue
         if malformed:
-            for r in rows + [final]:
+            for r in rows + ([final] if final is not None else []):
                 if sum(r) != sum(d0):
                     ctx.spec_fail("brd_sum", "total count changed", replay)
             continue
@@ -617,12 +626,15 @@ def brd_exhaustive(ctx, cases):
                     arr = np.array(d0, dtype=int)
                     rec = Rec(0, ps=[p])
                     try:
-                        out = obj.time_series(1, init_action_dist=arr, random_state=rec)
+                        out = obj.time_series(2, init_action_dist=arr, random_state=rec)
                     except Exception as e:
                         ctx.spec_fail("brd_exception", "BRD.time_series raised %s: %s" % (type(e).__name__, e),
                                       {"op": "brd", "A": A, "N": N, "d0": d0, "player_ind_seq": [p]})
                         continue
-                    final = [int(v) for v in arr]
+                    final = [int(v) for v in out[1]]
+                    if [int(v) for v in arr] != d0:
+                        ctx.spec_fail("brd_time_series_overwrites_init", "time_series overwrote the caller's init_action_dist",
+                                      {"op": "brd", "A": A, "N": N, "d0": d0, "player_ind_seq": [p]})
                     a = locate_exact(d0, p)
                     oth = list(d0)
                     oth[a] -= 1
@@ -729,7 +741,7 @@ def fp_family(ctx, cases, n_cases):
             init = (np.array(x0), np.array(x1))
         rec = Rec(rng.randrange(2 ** 31), ri=[rng.randrange(12) for _ in range(2 * T)] if rng.random() < 0.5 else None)
         forms = rng.random() < 0.5
-        T_arg, tinit_arg, fins = T, t_init, []
+        T_arg, tinit_arg, fins, narrow = T, t_init, [], False
         if forms:
             ctx.count("forms:fp")
             A0f = varr2(rng, A0, PAY_DT)
@@ -749,10 +761,10 @@ def fp_family(ctx, cases, n_cases):
             if isinstance(tinit_arg, np.integer) and t_init + T + 2 > np.iinfo(type(tinit_arg)).max:
                 # `t_init + j - 1`, `t_init + num_reps` and `t + 2` are evaluated in the width of t_init: OverflowError
                 # or a silently wrapped period index (negative step size / empty range)
-                finding(ctx, "fp_narrow_int_t_init", "FictitiousPlay with t_init=%s(%d) and %d periods: period arithmetic "
-                        "overflows the integer width of t_init" % (type(tinit_arg).__name__, t_init, T),
-                        {"op": "fp", "t_init": "%s(%d)" % (type(tinit_arg).__name__, t_init), "ts_length": T})
-                tinit_arg = int(t_init)
+                # (fixed by 7129e15: int(t_init), int(num_reps)); the case now runs like any other, and is additionally
+                # compared with the plain-int call under the regression key fp_narrow_int_t_init
+                ctx.count("forms:fp-narrow-int-period-arithmetic")
+                narrow = True
             if pure:
                 init = rng.choice([tuple, list])([vint(rng, a0, plain=0.2), vint(rng, a1, plain=0.2)])
             else:
@@ -779,7 +791,8 @@ def fp_family(ctx, cases, n_cases):
                 nr = vint(rng, T - 1) if forms else T - 1
                 nr = np.uint32(T - 1) if isinstance(nr, np.uint64) else nr
                 if isinstance(nr, np.integer) and t_init + T + 2 > np.iinfo(type(nr)).max:
-                    nr = T - 1          # (same width problem through `t_init + num_reps`)
+                    narrow = True       # (same width problem through `t_init + num_reps`)
+                    ctx.count("forms:fp-narrow-int-period-arithmetic")
                 fin = obj.play(actions=init, num_reps=nr, t_init=tinit_arg,
                                tie_breaking=tb, random_state=rec)
                 out = ([fin[0]], [fin[1]])
@@ -793,10 +806,30 @@ def fp_family(ctx, cases, n_cases):
                                         for o in out if isinstance(o, np.ndarray)):
                 ctx.spec_fail("fp_alias", "a returned belief array shares memory with an input", {"op": "fp", "A0": A0})
         except Exception as e:
-            ctx.spec_fail("fp_exception", "time_series/play raised %s: %s" % (type(e).__name__, e),
+            ctx.spec_fail("fp_narrow_int_t_init" if narrow else "fp_exception",
+                          "time_series/play raised %s: %s" % (type(e).__name__, e),
                           {"op": "sfp" if sfp else "fp", "A0": A0, "A1": A1, "gain": gain, "T": T, "t_init": t_init,
-                           "tie_breaking": tb, "x0": x0, "x1": x1})
+                           "t_init_form": type(tinit_arg).__name__, "tie_breaking": tb, "x0": x0, "x1": x1})
             continue
+        if narrow and init is not None:
+            # regression check of 7129e15: the same call with plain Python ints (same draws) must give the same bits
+            try:
+                o2 = StochasticFictitiousPlay(g, distribution=ReplayDist(dist.log), gain=gain) if sfp \
+                    else FictitiousPlay(g, gain=gain)
+                rec2 = Rec(1, ri=list(rec.log_ri) or None)
+                if use_play:
+                    f2 = o2.play(actions=init, num_reps=T - 1, t_init=int(t_init), tie_breaking=tb, random_state=rec2)
+                    ref = ([f2[0]], [f2[1]])
+                else:
+                    ref = o2.time_series(T, init_actions=init, t_init=int(t_init), tie_breaking=tb, random_state=rec2)
+                same = all(np.array_equal(np.asarray(a), np.asarray(b)) for a, b in zip(out, ref))
+            except Exception:
+                same = False
+            if not same:
+                ctx.spec_fail("fp_narrow_int_t_init", "t_init=%s(%d) / num_reps as narrow NumPy integers over %d periods give a "
+                              "different answer than the same call with Python ints" % (type(tinit_arg).__name__, t_init, T),
+                              {"op": "fp", "A0": A0, "A1": A1, "gain": gain, "T": T, "t_init": t_init, "x0": x0, "x1": x1,
+                               "t_init_form": type(tinit_arg).__name__, "play": use_play})
         r0 = [[float(v) for v in r] for r in out[0]]
         r1 = [[float(v) for v in r] for r in out[1]]
         if init_none:       # random initial beliefs: read them off the first recorded row
@@ -1410,7 +1443,7 @@ def logit_family(ctx, cases, n_cases):
         orc = [list(cur)]
         for p, u in zip(ps_used, us_used):
             opp = tuple(cur[p + 1:]) + tuple(cur[:p])
-            cdf = ld.players[p].logit_choice_cdfs[opp]
+            cdf = ld.logit_choice_cdfs()[p][opp]
             vf = F(float(u) * float(cdf[-1]))
             ve = F(u) * F(float(cdf[-1]))
             af = sum(1 for c in cdf if F(float(c)) <= vf)
@@ -1722,13 +1755,11 @@ def history_family(ctx, cases, n_cases):
                 replay = {"op": "logit-history", "A": A, "betas": betas, "object": w, "actions": acts,
                           "player_ind_seq": seq, "uniforms": us, "step": step}
                 if got != cur:
-                    if len(lds) == 2 and betas[0] != betas[1]:
-                        finding(ctx, "logit_shared_player_cdfs", "LogitDynamics stores its choice cdfs on the game's Player "
-                                "objects: after LogitDynamics(g, beta=%r) was built on the same game, the object built with "
-                                "beta=%r plays %s instead of %s" % (betas[1 - w], beta, got, cur), replay)
-                    else:
-                        ctx.spec_fail("logit_history_transition", "play() = %s, the inverse-cdf definition with this object's "
-                                      "beta gives %s" % (got, cur), replay)
+                    # (two LogitDynamics on one game must behave independently: fix d0b9fc1)
+                    ctx.spec_fail("logit_shared_player_cdfs" if len(lds) == 2 else "logit_history_transition",
+                                  "play() of the object built with beta=%r returned %s; the inverse-cdf definition with this "
+                                  "object's beta gives %s (objects on this game: betas %s)" % (beta, got, cur, betas[:len(lds)]),
+                                  replay)
                 _keep(ctx, kept, got, "logit_history", replay)
                 acts = got
 
